@@ -71,8 +71,10 @@ example : BucketHyps (E := Nat) 0 (some 2) [3, 3, 5, 7] (some 7) 9 where
   ll_lt_hi := by intro l h; cases h; decide
   obs_le_hi := by decide
 
-/-- **(A) is necessary — finding F6a.** `fit([1,1,2,3], constraints={"a": 1.})`: the observations equal to
-the lower support edge are dropped by `ks = ks[1:]`; the documented closed left-most bucket counts them. -/
+/-- **(A) is necessary — F6a (a defect of the code before `55c25d1`, repaired in /repo).** `fit([1,1,2,3],
+constraints={"a": 1.})`: the positional fix-ups modelled here drop the observations equal to the lower support edge
+(`ks = ks[1:]`); the documented closed left-most bucket counts them.  Outside (A), (B) the model is not the
+reference: the check judges the code against the documented counts (`ksSpec`), which the repaired code meets. -/
 theorem sideA_necessary_F6a :
     sideA (E := Nat) 1 none [1, 1, 2, 3] none 5 = false ∧
     ksModel? (E := Nat) 1 none [1, 1, 2, 3] none 5 0 0 = some [1, 1, 1] ∧
@@ -96,7 +98,8 @@ theorem sideB_necessary_F6c :
     ksSpec (E := Nat) true none [1, 4, 5, 7, 9] (some 10) 10 0 1
       (zsModel (E := Nat) 0 none [1, 4, 5, 7, 9] (some 10) 10) = [1, 1, 1, 1, 1, 1] := by decide
 
-/-- **The data fact `limit_lower < observation` (after rounding) is necessary — finding F6d.** An
+/-- **The data fact `limit_lower < observation` (after rounding) is necessary — F6d (defect of the code before
+`55c25d1`, repaired in /repo; as for F6a the check judges the code against `ksSpec` there).** An
 observation inside the limits that `np.round` moves onto the lower limit (float32 data are rounded to 3
 decimals) is merged with the limit point and then overwritten by `ks[0] = n_lower`: it vanishes instead
 of being counted with the censored ones, as the code comment intends. (A) and (B) hold here. -/
@@ -106,8 +109,9 @@ theorem rounding_onto_lower_limit_F6d :
     ksSpec (E := Nat) true (some 2) [2, 3] none 9 1 0 (zsModel (E := Nat) 0 (some 2) [2, 3] none 9) = [2, 1, 1] := by
   decide
 
-/-- **(B) is necessary — finding F2.** With fewer than two buckets `ks[-2]` does not exist:
-`fit([1,1,1,1,1,2], limits=(-inf, 1))` raises `IndexError`. -/
+/-- **(B) is necessary — F2.** With fewer than two buckets `ks[-2]` does not exist:
+`fit([1,1,1,1,1,2], limits=(-inf, 1))` raised `IndexError` before `b238e9d` (repaired in /repo: the code now raises
+`OptimizationError` exactly where the model says the fix-ups are undefined). -/
 theorem sideB_necessary_F2 :
     sideB (E := Nat) (some 1) 1 = false ∧ ksModel? (E := Nat) 1 none [1, 1, 1, 1, 1] (some 1) 1 0 1 = none := by
   decide
